@@ -13,7 +13,8 @@ from .. import core, editwalk, gen, ohist, specs
 from .. import tdfref as R
 
 PROP = "C20"
-RULE = ("states = per-slot model lists (item identifiers, edited flags) for 2 (thorough 3) slots reached by BFS to depth "
+RULE = ("[plus the structural form for all 9 kinds: 3 variants x 6 ways of creating two blocks, sets of reachable mutable "
+        "objects (array memory, lists, items, viewports, public class-level lists) disjoint; items of one decoded block pairwise too] " +"states = per-slot model lists (item identifiers, edited flags) for 2 (thorough 3) slots reached by BFS to depth "
         "5 (quick) / 6 (thorough) per class; every op on every slot in every state; oracle on all slots after each op; "
         "non-trivial = both slots hold an object and they differ")
 ASSUMPTIONS = [
